@@ -34,7 +34,7 @@ def _specs(method):
     return {'a': params, 'b': ops}, ops
 
 
-MODELS = [('pit', 'pit1d', {}), ('pit', 'pit2d', {}), ('pit', 'pit1d_frozen', {'discrete_cost': True}),
+MODELS = [('pit', 'pit1d', {}), ('pit', 'pit2d', {}), ('pit', 'pit1d_frozen', {'discrete_cost': True}), ('pit', 'pit1d_catin', {}),
           ('mps', 'mps_a', {}), ('mps', 'mps_b', {'per_channel': True}),
           # non-default sampling options given at construction (sampling disabled = "use the saved coefficients"; Gumbel)
           ('mps', 'mps_a', {'disable_sampling': True}), ('mps', 'mps_b', {'gumbel_softmax': True}),
@@ -48,7 +48,7 @@ def cases(tier, seed):
             continue      # thorough only
         for train in (True, False):
             for full in (False, True):
-                if tier == 'quick' and full and (name in ('pit2d', 'pit1d_frozen', 'mps_b', 'sn_twice') or kw.get('disable_sampling')):
+                if tier == 'quick' and full and (name in ('pit2d', 'pit1d_frozen', 'pit1d_catin', 'mps_b', 'sn_twice') or kw.get('disable_sampling')):
                     continue
                 # the BFS is sharded by its first letter (pool parallelism only; closure is then per shard, which is sound but redundant)
                 for first in _first_letters(method, kw) + [None]:
